@@ -10,6 +10,7 @@ mod frame;
 mod fuzz;
 mod hello;
 mod instev;
+mod sendecho;
 mod logs;
 mod memtransport;
 mod meta;
@@ -71,7 +72,7 @@ fn main() {
     }
     // sequential ops: a case that never returns is reported as that case (see util::start_monitor)
     if [
-        "meta", "sched", "cands", "instev", "daemon", "build", "ser", "plan",
+        "meta", "sched", "cands", "instev", "daemon", "build", "ser", "plan", "sendecho",
     ]
     .contains(&op.as_str())
     {
@@ -97,6 +98,7 @@ fn main() {
         "evalseq" => evalseq::main(&opts),
         "cands" => cands::main(&opts),
         "instev" => instev::main(&opts),
+        "sendecho" => sendecho::main(&opts),
         _ => {
             eprintln!("unknown op {op}");
             std::process::exit(2);
